@@ -102,9 +102,10 @@ Section RecComplete.
   Variable doc : tsdoc.
   Hypothesis Hu : unique_names doc = true.
   Hypothesis Hunk : ok_directive_unknown doc = true.
-  Hypothesis Hrec : ok_directive_recursive doc = true.
+  Variable nst : bool.
+  Hypothesis Hrec : ok_directive_recursive_gen nst doc = true.
 
-  Lemma edge_nedge x y : lookup_d doc (dname x) = Some x -> edge doc x y -> nedge true doc (dname x) (dname y).
+  Lemma edge_nedge x y : lookup_d doc (dname x) = Some x -> edge doc x y -> nedge nst doc (dname x) (dname y).
   Proof.
     intros L He. exists x. split; [exact L|]. unfold edge, next_of in He. rewrite opt_list_args_of in He. fold (args_of (dd_args x)) in He.
     apply in_flat_map in He as [a [Ha He]]. apply in_flat_map in He as [dir [Hdir Hy]].
@@ -114,11 +115,11 @@ Section RecComplete.
     apply in_app_or in Hdir as [Hdir|Hdir]; [left; apply (in_map (fun x0 : directive => iname (dir_name x0))); exact Hdir|]. right.
     rewrite (last_type_lookup doc _ Hu) in Hdir. fold (base_name (iv_type a)) in Hdir.
     destruct (lookup_t doc (base_name (iv_type a))) as [td|] eqn:Lt; [|contradiction].
-    apply in_flat_map. exists (base_name (iv_type a)). split; [apply reach_types_head|]. rewrite Lt.
+    apply in_flat_map. exists (base_name (iv_type a)). split; [destruct nst; [apply reach_types_head | left; reflexivity]|]. rewrite Lt.
     apply directives_in_type_on. exact Hdir.
   Qed.
 
-  Lemma reach_npath n x y : reach doc n x y -> lookup_d doc (dname x) = Some x -> npath true doc n (dname x) (dname y).
+  Lemma reach_npath n x y : reach doc n x y -> lookup_d doc (dname x) = Some x -> npath nst doc n (dname x) (dname y).
   Proof.
     induction 1 as [x|n x x1 y He Hr IH]; intros L; [constructor|].
     econstructor; [apply edge_nedge; [exact L | exact He]|]. apply IH.
@@ -126,7 +127,7 @@ Section RecComplete.
   Qed.
 
   (** names of applied directives are names of definitions *)
-  Lemma succ_in_dnames ns : incl ns (dnames doc) -> incl (succ_names true doc ns) (dnames doc).
+  Lemma succ_in_dnames ns : incl ns (dnames doc) -> incl (succ_names nst doc ns) (dnames doc).
   Proof.
     intros _ b Hb. apply In_succ_names in Hb as [a [_ [x [Lx Hb]]]]. apply lookup_d_In in Lx as [Hx _].
     assert (G : exists la dir, In la (all_apps doc) /\ In dir (snd la) /\ iname (dir_name dir) = b).
@@ -155,20 +156,20 @@ Section RecComplete.
     intros Hd n y Hr Hy.
     assert (L : lookup_d doc (dname d) = Some d) by (apply lookup_d_self; assumption).
     pose proof (reach_npath _ _ _ Hr L) as Hp. rewrite Hy in Hp.
-    unfold ok_directive_recursive in Hrec. rewrite forallb_forall in Hrec. specialize (Hrec d Hd).
+    unfold ok_directive_recursive_gen in Hrec. rewrite forallb_forall in Hrec. specialize (Hrec d Hd).
     apply negb_true_iff in Hrec. unfold reaches_self in Hrec.
-    set (start := add_new [] (dir_succ true doc d)) in *.
+    set (start := add_new [] (dir_succ nst doc d)) in *.
     assert (Hstart : NoDup start) by (apply add_new_NoDup; constructor).
     assert (Hinc : incl start (dnames doc)).
     { intros b Hb. apply In_add_new in Hb as [[]|Hb]. apply (succ_in_dnames [dname d]).
       - intros ? [<-|[]]. unfold dnames. apply in_map. exact Hd.
       - apply In_succ_names. exists (dname d). split; [left; reflexivity|]. exists d. split; [exact L | exact Hb]. }
-    destruct (closure_closed true doc (dnames doc) succ_in_dnames (length doc) start Hstart Hinc) as [Hclosed Hsub].
+    destruct (closure_closed nst doc (dnames doc) succ_in_dnames (length doc) start Hstart Hinc) as [Hclosed Hsub].
     { pose proof dnames_length. lia. }
     inversion Hp as [|? ? b ? He Hp']; subst.
-    assert (Hb : In b (closure true doc (length doc) start)).
+    assert (Hb : In b (closure nst doc (length doc) start)).
     { apply Hsub. apply In_add_new. right. destruct He as [x [Lx Hb]]. rewrite L in Lx. injection Lx as <-. exact Hb. }
-    pose proof (closed_npath true doc _ Hclosed _ _ _ Hp' Hb) as Hself.
+    pose proof (closed_npath nst doc _ Hclosed _ _ _ Hp' Hb) as Hself.
     apply existsb_str_In in Hself. unfold dname in Hself. rewrite Hself in Hrec. discriminate.
   Qed.
 
@@ -180,14 +181,24 @@ End RecComplete.
 Lemma all_rules_all r : In r all_rules.
 Proof. destruct r; cbn; tauto. Qed.
 
+(** [b] = true: the specification's reading of every rule; [b] = false: the implementation's scope of the two
+    partially enforced rules.  Both imply that nothing is reported. *)
+Theorem complete_gen b doc :
+  unique_names doc = true -> ok_app_arg_unique doc = true -> ok_app_args_nonempty doc = true ->
+  (forall r, rule_ok_gen b r doc = true) -> ok_extra_args_nullable doc = true -> check_doc doc = [].
+Proof.
+  intros Hu Hau Hne HR HK.
+  apply check_doc_nil. intros d Hd. destruct d as [sd|t|dd|se|te]; cbn [check_def]; try reflexivity.
+  - eapply schema_complete; eassumption.
+  - eapply typedef_complete; try eassumption. apply In_types_of. exact Hd.
+  - unfold check_directive_def. apply In_directives_of in Hd.
+    erewrite (recursion_complete doc Hu (HR RDirectiveUnknown)); [| exact (HR RDirectiveRecursive) | exact Hd]. cbn [app].
+    eapply directive_def_rest_complete; eassumption.
+Qed.
+
 Theorem complete doc : spec_valid doc = true -> ok_extra_args_nullable doc = true -> check_doc doc = [].
 Proof.
   unfold spec_valid. rewrite !andb_true_iff. intros [[[[[[Hu Hrules] Hau] Hne] _] _] _] HK.
-  assert (HR : forall r, rule_ok r doc = true) by (intros r; rewrite forallb_forall in Hrules; apply Hrules; apply all_rules_all).
-  apply check_doc_nil. intros d Hd. destruct d as [sd|t|dd|se|te]; cbn [check_def]; try reflexivity.
-  - apply schema_complete; assumption.
-  - apply typedef_complete; try assumption. apply In_types_of. exact Hd.
-  - unfold check_directive_def. apply In_directives_of in Hd.
-    rewrite (recursion_complete doc Hu (HR RDirectiveUnknown) (HR RDirectiveRecursive) dd Hd). cbn [app].
-    apply directive_def_rest_complete; assumption.
+  apply (complete_gen true); try assumption.
+  intros r. rewrite forallb_forall in Hrules. apply (Hrules r). apply all_rules_all.
 Qed.
